@@ -72,7 +72,12 @@ def match_known(prop, viol, known=None):
     for k in (load_known() if known is None else known):
         if k.get("status") != "open" or prop not in k["properties"]:
             continue
-        m = k.get("match", {})
+        ms = k.get("match", {})
+        if isinstance(ms, list):          # alternatives: the finding matches when any one of them does
+            if any(match_known(prop, viol, [dict(k, match=m1)]) for m1 in ms):
+                return k
+            continue
+        m = ms
         if "clause" in m and not re.fullmatch(m["clause"], viol.get("clause", "")):
             continue
         spec = viol.get("spec", "")
